@@ -22,7 +22,7 @@ import (
 func init() {
 	core.Register(&core.Prop{
 		ID: "C11", Level: "exploration",
-		Rule: "per grading era (OPR v1..v5, SPR S1..S3): OPR sets of {0, W-1, W, W+1, 51} valid records (W = winner count) with per-record rate noise, mixed with each kind of invalid record (version byte of another era, wrong height, wrong previous winners, wrong self-reported difficulty, exact duplicate, undecodable payout address), over 2-3 consecutive blocks incl. an ungraded block between; SPR sets of 24/25/26 records whose declared staker is {a top-100 PEG holder, holder #101, a non-holder} and whose signature is by {that holder's key, another key}, with duplicate payout addresses; an OPR/SPR pair outside the tolerance band before 2.0.2; factoid blocks over {1|2 inputs} x {EC outputs 0|1|2; burn address | other; amount 0 | >0} x {FCT outputs 0|1}, before and after 2.0. Oracle: for every address the PEG / pFCT delta of the block equals the sum of the rewards the grader LIBRARY assigns to the eligible records paying to it (eligible SPR = signed by the key of the top-100 holder it names) plus its valid burns; one coinbase history row per winner. Non-trivial = distinct (era, scenario)",
+		Rule: "per grading era (OPR v1..v5, SPR S1..S3): OPR sets of {0, W-1, W, W+1, 51} valid records (W = winner count) with per-record rate noise, mixed with each kind of invalid record (version byte of another era, wrong height, wrong previous winners, wrong self-reported difficulty, exact duplicate, undecodable payout address), over 2-3 consecutive blocks incl. an ungraded block between; SPR sets of 24/25/26 records whose declared staker is {a top-100 PEG holder, holder #101, a non-holder} and whose signature is by {that holder's key, another key}, with duplicate payout addresses; an OPR/SPR pair outside the tolerance band before 2.0.2; factoid blocks over {1|2 inputs} x {EC outputs 0|1|2; burn address | other; amount 0 | >0} x {FCT outputs: none | one of 1 FCT | one of amount 0 | two of amount 0}, before and after 2.0. Oracle: for every address the PEG / pFCT delta of the block equals the sum of the rewards the grader LIBRARY assigns to the eligible records paying to it (eligible SPR = signed by the key of the top-100 holder it names) plus its valid burns; one coinbase history row per winner. Non-trivial = distinct (era, scenario)",
 		Assumptions: []string{"the grader libraries (pegnet/modules/grader, graderStake) define winners and rewards", "S1 records carry no signature: eligibility there = the declared staker is a top-100 holder"},
 		Run:         runC11,
 	})
@@ -545,7 +545,7 @@ func c11Factoid(c *core.Ctx, r *core.Result, w *World, era drive.Era, key string
 	n := 0
 	for _, nin := range []int{1, 2} {
 		for _, ecs := range [][]fake.FIO{nil, {{0, burn}}, {{5, burn}}, {{0, other}}, {{0, burn}, {0, burn}}, {{0, burn}, {0, other}}} {
-			for _, nout := range []int{0, 1} {
+			for _, nout := range []int{0, 1, 2, 3} { // FCT outputs: none, one of 1 FCT, one of amount 0, two of amount 0
 				n++
 				k := kit.Key(500 + n)
 				t := fake.FTx{SaltMs: int64(1000 + n)}
@@ -557,8 +557,13 @@ func c11Factoid(c *core.Ctx, r *core.Result, w *World, era drive.Era, key string
 					t.Seeds = append(t.Seeds, k2)
 				}
 				t.ECOuts = ecs
-				if nout == 1 {
+				switch nout {
+				case 1:
 					t.Outputs = []fake.FIO{{Amount: 1e8, Address: kit.Addr(640)}}
+				case 2:
+					t.Outputs = []fake.FIO{{Amount: 0, Address: kit.Addr(640)}}
+				case 3:
+					t.Outputs = []fake.FIO{{Amount: 0, Address: kit.Addr(640)}, {Amount: 0, Address: kit.Addr(641)}}
 				}
 				valid := nin == 1 && nout == 0 && len(ecs) == 1 && ecs[0].Address == burn && ecs[0].Amount == 0
 				cases = append(cases, tcase{t, valid, k.FAAddress(), uint64(n) * 1e8, fmt.Sprintf("inputs=%d ec=%d outs=%d", nin, len(ecs), nout)})
